@@ -20,7 +20,7 @@ ASSUMPTIONS = [
     "costs, capacities and footprints are symbolic integers in [1, 2^20]; routes are symmetric",
     "message lists (paths, visited, hosts) are shared by reference between sender and receiver, as with the in-process transport",
 ]
-BOUNDS = {"quick": "3 agents in a line (x-y-z, one computation each), k in {1,2}; canonical schedule with symbolic costs + all FIFO interleavings with pinned costs; a star of 4 computations with two of them on one agent (k=2, canonical schedule)",
+BOUNDS = {"quick": "3 agents in a line (x-y-z, one computation each), k in {1,2}; canonical schedule with symbolic costs + all FIFO interleavings with pinned costs; a star of 4 computations with two of them on one agent (k in {2,3}, canonical schedule)",
           "thorough": "quick + all FIFO interleavings with symbolic costs (k=1), triangle of agents; bug hunting only (cpu budget): an agent owning two computations with every interleaving of the deliveries (sleep-set reduced)"}
 OUTSIDE = "more than 3 agents, k = 3, agent departures during replication, the HTTP transport"
 CAP_S = {"quick": 1200, "thorough": 10800}
@@ -33,7 +33,7 @@ def jobs(tier):
            {"name": "line3-allsched-pinned", "struct": "chain3", "ks": [1, 2], "fixed": False, "pins": pins},
            {"name": "line3-allsched-tight", "struct": "chain3", "ks": [2], "fixed": False, "pins": {"cap": 5, "foot": 2, "host": 1, "route": 1}}]
     # two computations of different footprints on one agent: their replicas meet on a third agent
-    out.append({"name": "star-two-on-one-fixed", "struct": "star3", "ks": [2], "fixed": True, "sleep": False, "pins": {"route": 1, "host": 1},
+    out.append({"name": "star-two-on-one-fixed", "struct": "star3", "ks": [2, 3], "fixed": True, "sleep": False, "pins": {"route": 1, "host": 1},
                 "owners": {"x": "a1", "y": "a0", "z": "a0", "w": "a2"}})
     # an agent owning two computations, every interleaving (all numbers pinned): the two searches share nothing
     two = {"struct": "star3", "ks": [2], "fixed": False, "pins": {"cap": 10, "foot": 2, "route": 1, "host": 1},
